@@ -278,6 +278,9 @@ type SolverSpec struct {
 var solvers = []SolverSpec{
 	{"z3-new-5.1.0", func(f string, t int) []string { return []string{"z3-new", fmt.Sprintf("-T:%d", t), "-smt2", f} }, ""},
 	{"z3-4.8.12", func(f string, t int) []string { return []string{"z3", fmt.Sprintf("-T:%d", t), "-smt2", f} }, ""},
+	{"z3-new-5.1.0/norelevancy", func(f string, t int) []string {
+		return []string{"z3-new", fmt.Sprintf("-T:%d", t), "smt.relevancy=0", "smt.mbqi=false", "-smt2", f}
+	}, ""},
 	{"cvc5-1.0", func(f string, t int) []string {
 		return []string{"cvc5", "--lang=smt2", fmt.Sprintf("--tlimit=%d", t*1000), "--produce-models", f}
 	}, "(set-logic ALL)\n"},
@@ -291,6 +294,9 @@ type solveResult struct {
 
 func runSolver(ctx context.Context, s SolverSpec, text string, dir, base string, timeoutSec int) solveResult {
 	file := filepath.Join(dir, base+"."+strings.Split(s.Name, "-")[0]+".smt2")
+	if strings.Contains(s.Name, "/") {
+		file = filepath.Join(dir, base+".z3r.smt2")
+	}
 	pre := "(set-option :produce-models true)\n" + s.Pre
 	if err := os.WriteFile(file, []byte(pre+text), 0o644); err != nil {
 		return solveResult{"unknown", err.Error(), 0}
@@ -387,6 +393,15 @@ func Discharge(o *Obligation, outDir string, timeoutSec int, need int) {
 						o.Raw = "timeout"
 					}
 				}
+				continue
+			}
+			dupFamily := false
+			for _, r0 := range results {
+				if strings.Split(r0.s.Name, "/")[0] == strings.Split(nr.s.Name, "/")[0] && r0.r.status == nr.r.status {
+					dupFamily = true
+				}
+			}
+			if dupFamily {
 				continue
 			}
 			results = append(results, nr)
